@@ -193,8 +193,13 @@ func zzNewSyncEnv(ctx context.Context, K, stored, getterErrs int, gates bool) *z
 	if stale {
 		recency = time.Nanosecond
 	}
+	tailOpt := WithSyncFromHeight(1)
+	if w := zz.Param("WINDOW", 0); w > 0 {
+		// the tail follows a pruning window of w block times instead of being pinned to height 1
+		tailOpt = WithPruningWindow(time.Duration(w) * time.Second)
+	}
 	s, err := NewSyncer[*zh.Hdr](env.g, env.st, env.sub,
-		WithTrustingPeriod(1000*time.Hour), WithRecencyThreshold(recency), WithBlockTime(time.Second), WithSyncFromHeight(1))
+		WithTrustingPeriod(1000*time.Hour), WithRecencyThreshold(recency), WithBlockTime(time.Second), tailOpt)
 	zz.Assert(err == nil, "NewSyncer succeeds")
 	env.s = s
 	zz.Assert(s.Start(ctx) == nil, "Start succeeds")
